@@ -246,6 +246,16 @@ def _up_conn(h, handler):
     return None
 
 
+def run_sync(coro):
+    """drive a coroutine that never really suspends (the handler's async methods do no awaiting I/O)"""
+    try:
+        coro.send(None)
+    except StopIteration as e:
+        return e.value
+    coro.close()
+    raise RuntimeError('coroutine suspended')
+
+
 class RelayDriver:
     """one real handler (HttpProtocolHandler or a BaseTcpTunnelHandler subclass) around fake sockets, driven one
     event at a time.  pre_step() materialises and scripts an event, post_step() records what the handler did and the
@@ -266,6 +276,17 @@ class RelayDriver:
         connect_script = [None if x is None else sim.io_error(x) for x in case.get('connect', [])]
         self.S = S = sim.Sim(flags=flags, clock=self.clock, handler_klass=klass, connect_script=connect_script)
         self.h = h = S.h
+        def interest():
+            # same as sim.Sim.interest but usable while an asyncio loop is running (threaded run())
+            import selectors
+            ev = run_sync(h.get_events())
+            fds = {s_.fd: s_.name for s_ in [S.client] + S.upstreams}
+            out = {}
+            for fd, m in ev.items():
+                name = fds.get(fd, 'fd%d' % fd)
+                out[name] = ('r' if m & selectors.EVENT_READ else '') + ('w' if m & selectors.EVENT_WRITE else '')
+            return out, ev
+        S.interest = interest
         if external_shutdown:
             # the caller (real Threadless._cleanup / real run()) performs shutdown()
             def only_mark():
@@ -309,6 +330,17 @@ class RelayDriver:
             return r
         h.handle_data = handle_data
         self.final_res = 0
+        self._is_inactive = getattr(h, 'is_inactive', None)
+        self.cio_calls = 0              # send()/recv() calls made on the client socket
+        csock = S.client
+        orig_recv, orig_send = csock.recv, csock.send
+        def c_recv(n):
+            drv.cio_calls += 1
+            return orig_recv(n)
+        def c_send(data):
+            drv.cio_calls += 1
+            return orig_send(data)
+        csock.recv, csock.send = c_recv, c_send
         self.client_plan = list(case.get('client_plan', []))
         self.up_plan = list(case.get('up_plan', []))
         self._cur = None
@@ -339,6 +371,7 @@ class RelayDriver:
             up.inq[:] = [py_recv(ev['u_recv'])] if ev.get('u_recv') is not None else []
             up.send_script[:] = [py_outcome(ev['u_send'])] if ev.get('u_send') is not None else []
         self._cur = (ev, names, up, took_c, took_u)
+        self._cio0 = self.cio_calls
         return ev.get('r', ()), ev.get('w', ())
 
     def post_step(self, res):
@@ -393,7 +426,7 @@ class RelayDriver:
                     orc['cdata'] = ['proto', newc]
                 elif is_proxy and rec['up_before'] and newu and not h.request.is_https_tunnel:
                     pr = getattr(h.plugin, 'pipeline_request', None)
-                    orc['cdata'] = ['forward', list(newu), bool(pr is not None and pr.is_connection_upgrade)]
+                    orc['cdata'] = ['forward', list(newu), bool(pr is not None and pr.is_complete and pr.is_connection_upgrade)]
                 elif newc:
                     orc['cdata'] = ['reply', newc]
         self.oracles.append(orc)
@@ -403,7 +436,7 @@ class RelayDriver:
         if handler == 'http':
             saved = self.clock.t
             self.clock.t = probe / TICK
-            inactive = bool(h.is_inactive())
+            inactive = bool(self._is_inactive())
             self.clock.t = saved
         self.steps.append(dict(int=int_code(names), res=res, csent=len(S.client.out),
                                usent=len(S.upstreams[0].out) if S.upstreams else 0,
@@ -411,7 +444,8 @@ class RelayDriver:
                                upend=sum(len(b) for b in u.buffer) if u is not None else 0,
                                la=round(getattr(h, 'last_activity', self.t0 / TICK) * TICK),
                                inactive=inactive, uprcvd_len=len(self.uprcvd), clrcvd_len=len(self.clrcvd),
-                               c_taken=c_taken, u_taken=u_taken,
+                               c_taken=c_taken, u_taken=u_taken, now=ev['now'], probe=probe,
+                               cio=self.cio_calls > self._cio0,
                                established=bool(S.upstreams)))
         self.final_res = res
         return res
@@ -606,6 +640,9 @@ def gen_relay(rng, profile='relay', n_events=None, max_send=None, handler=None):
     elif profile == 'teardown':
         exchange = 'connect' if r < 0.2 else 'http' if r < 0.5 else 'web404' if r < 0.62 else 'webroute' if r < 0.72 \
             else 'badreq' if r < 0.82 else 'connectfail' if r < 0.92 else 'malformed-upstream'
+    elif profile == 'timed':
+        # C20 does not depend on the C01 / C07 repairs: no malformed upstream bytes, no upstream send failures
+        exchange = 'connect' if r < 0.5 else 'http' if r < 0.92 else 'web404'
     else:
         exchange = 'connect' if r < 0.45 else 'http' if r < 0.9 else 'malformed-upstream' if r < 0.95 else 'web404'
     case['exchange'] = exchange
@@ -637,8 +674,8 @@ def gen_relay(rng, profile='relay', n_events=None, max_send=None, handler=None):
         up_plan = [rand_bytes(rng, rng.choice([1, 2, max(1, max_send - 1), max_send, max_send + 1, 3 * max_send, 17])) for _ in range(n_up)]
     elif exchange == 'http':
         resp = response_bytes(rng)
-        if rng.random() < 0.3:
-            resp += response_bytes(rng)
+        if rng.random() < 0.3 and profile != 'timed':
+            resp += response_bytes(rng)          # a second, pipelined response
         up_plan = cut(rng, resp, rng.choice([1, 2, 4, 7]))
         if rng.random() < 0.4:
             client_plan += cut(rng, http_request(rng), rng.choice([1, 2]))      # a pipelined / keep-alive request
@@ -655,6 +692,9 @@ def gen_relay(rng, profile='relay', n_events=None, max_send=None, handler=None):
     if profile == 'teardown':
         ending = 'up-eof' if end < 0.45 else 'up-reset' if end < 0.55 else 'client-eof' if end < 0.7 else \
             'up-send-error' if end < 0.8 else 'up-timeout' if end < 0.85 else 'none'
+    elif profile == 'timed':
+        ending = 'up-eof' if end < 0.2 else 'client-eof' if end < 0.27 else 'client-reset' if end < 0.31 else \
+            'client-send-error' if end < 0.35 else 'none'
     else:
         ending = 'up-eof' if end < 0.25 else 'client-eof' if end < 0.32 else 'client-reset' if end < 0.36 else \
             'up-send-error' if end < 0.40 else 'client-send-error' if end < 0.44 else 'none'
@@ -779,11 +819,7 @@ def run_reaper_threadless(case):
         tl = OneWork('1', None, d.S.flags)
         tl.running = threading.Event()
         tl.works[WID] = d.h
-        loop = asyncio.new_event_loop()
-        try:
-            loop.run_until_complete(tl._run_forever())
-        finally:
-            loop.close()
+        run_sync(tl._run_forever())
         # a fate, once reached, stays
         f = 0
         for cur in log:
@@ -797,6 +833,10 @@ def run_reaper_threadless(case):
     out['log'] = log
     out['alive'] = WID in tl.works
     return out
+
+
+class HarnessStop(Exception):
+    pass
 
 
 class LoopSelector:
@@ -849,7 +889,7 @@ class LoopSelector:
             return [(selectors.SelectorKey(sock, sock.fd, selectors.EVENT_WRITE, None), selectors.EVENT_WRITE)]
         self._finish_inflight()
         if self.i >= len(self.iters):
-            raise KeyboardInterrupt()         # the harness ends the loop: run() goes to its finally clause
+            raise HarnessStop()               # the harness ends the loop: run() goes to its finally clause
         it = self.iters[self.i]
         self.i += 1
         self.n_main += 1
@@ -896,7 +936,7 @@ def run_reaper_threaded(case):
         orig_in = h.is_inactive
         def is_inactive():
             r = orig_in()
-            if sel.phase == 'main' and not sel.inflight:
+            if sel.phase == 'main':
                 inact.append(bool(r))
             return r
         h.is_inactive = is_inactive
